@@ -94,9 +94,28 @@ Proof.
   apply in_map_iff in Hwi as (n & <- & Hn). apply filter_In in Hn as [_ Hn]. now apply spec_inst_item_complete.
 Qed.
 
+(** * C03: the exports of the output are exactly the export map, for every reachable graph *)
+Theorem exports_spec_reachable e u ops dc tau ord st names w :
+  UnivOK e u ->
+  topo_orderb (run u ops) ord = true ->
+  encode_with_order e u (run u ops) dc tau ord = ROk (st, names) ->
+  (forall p, In p (e_dedup st) -> fst p = snd p) ->
+  decode_wiring names (e_log st) = Some w ->
+  forall nm s, In (nm, s) (map export_sig (w_exports w)) <-> In (nm, s) (spec_export_names e (run u ops)).
+Proof.
+  intros UO TO R Cons D. set (g := run u ops) in *.
+  pose proof (reach_inv u ops) as HI. pose proof (reach_kind_inv u ops) as KI.
+  pose proof (enc_inv_reachable e u ops UO) as EI. fold g in HI, KI, EI.
+  eapply exports_spec; eauto.
+  - intros n _ Dn. apply (is_def_true g n) in Dn as (nd & G & K).
+    destruct (ki_def _ _ KI n nd G K) as (_ & Ne). destruct (nexport nd) as [nm|] eqn:X; [|congruence].
+    exists nm. eapply inv_node_export; eauto.
+  - apply (inv_exports_live _ _ HI).
+Qed.
+
 (** * the modelled causes of a late failure do not occur for reachable graphs *)
 Theorem no_late_failure_reachable e u ops dc tau ord st names :
-  UnivOK e u -> PkgIdent e u -> DefsSingle (run u ops) ->
+  UnivOK e u -> PkgIdent e u ->
   topo_orderb (run u ops) ord = true ->
   encode_with_order e u (run u ops) dc tau ord = ROk (st, names) ->
   (forall p, In p (e_dedup st) -> fst p = snd p) ->
@@ -108,9 +127,9 @@ Theorem no_late_failure_reachable e u ops dc tau ord st names :
     (forall nm s, In (nm, s) (map export_sig (w_exports w)) <-> In (nm, s) (spec_export_names e (run u ops))) /\
     (forall nm n, In (nm, n) (exports (run u ops)) -> live (run u ops) n = true).
 Proof.
-  intros UO PI DS TO R Cons. set (g := run u ops) in *.
+  intros UO PI TO R Cons. set (g := run u ops) in *.
   pose proof (reach_inv u ops) as HI. pose proof (reach_args_checked u ops) as A. pose proof (reach_kind_inv u ops) as KI.
-  pose proof (enc_inv_reachable e u ops UO DS) as EI. fold g in HI, A, KI, EI.
+  pose proof (enc_inv_reachable e u ops UO) as EI. fold g in HI, A, KI, EI.
   pose proof (wiring_correct _ _ _ _ _ _ _ _ EI TO R Cons) as W.
   destruct (decode_wiring names (e_log st)) as [w|] eqn:D; [|discriminate]. exists w.
   split; [reflexivity|]. split; [eapply decode_scoped; eauto|].
